@@ -18,8 +18,13 @@ def _base(name):
     return next(p for p in _BASE if p["name"] == name)
 
 
-def _rs(name, **kw):
-    return dict(_base(name), name=f"{name}_rs", file=FILE, raise_state=True, **kw)
+def _rs(name, prior):
+    """the profile `name` of base.py with the state kept at a raise; `prior` = [(field of the record, parameter, type)]: what
+    the attributes of `self` hold before the call (the record starts from them instead of the default values)"""
+    b = _base(name)
+    return dict(b, name=f"{name}_rs", file=FILE, raise_state=True,
+                params=list(b["params"]) + [(par, ty) for _, par, ty in prior],
+                init=dict(b.get("init", {}), **{fld: par for fld, par, _ in prior}))
 
 
 PROFILES = [
@@ -29,9 +34,9 @@ PROFILES = [
          params=CASCADE_PROFILE["params"] + [("fz", "List (Op.Engine.Act Rat)")],
          init=dict(CASCADE_PROFILE["init"], self_fuzzy="fz"),
          locals=dict(CASCADE_PROFILE["locals"], self_fuzzy="List (Op.Engine.Act Rat)")),
-    _rs("Rule_parse"),
-    _rs("Consequent_load"),
-    _rs("Antecedent_load"),
+    _rs("Rule_parse", [("self_antecedent_text", "a0", "String"), ("self_consequent_text", "c0", "String"), ("self_weight", "w0", "X Rat")]),
+    _rs("Consequent_load", [("self_conclusions", "loaded0", "List Py.Load.Proposition")]),
+    _rs("Antecedent_load", [("self_expression", "loaded0", "Py.Load.Expression")]),
 ]
 
 FILES = {
